@@ -61,6 +61,16 @@ Theorem deduce_never_fails : forall eps, 0 <= eps <= 1/8 -> forall bx dx ux ax b
 Proof. exact SelfCheck.deduce_never_fails. Qed.
 Print Assumptions deduce_never_fails.
 
+(* Ties (repair "deduce takes K = 0 when the conditionals tie in the bounding component"): in Case I, and in Cases
+   II / III when d(y|x) = d(y|~x) resp. b(y|x) = b(y|~x), the operator evaluates neither the A/B threshold nor any
+   quotient.  Stated for EVERY arithmetic B (no law of its comparisons is used), so it covers floating point, where
+   the rounded threshold comparison used to select the branch whose quotient is 0/0 and the result was rejected. *)
+Theorem deduce_ties_take_no_quotient : forall (B : Fld) (eps : F B) x b0 d0 u0 b1 d1 u1 ay,
+  gtb b0 b1 = gtb d0 d1 \/ (gtb b0 b1 = true /\ eqb d0 d1 = true) \/ (gtb d0 d1 = true /\ eqb b0 b1 = true) ->
+  bdeduce eps x (b0, d0, u0) (b1, d1, u1) ay = bdeduce_k0 eps x (b0, d0, u0) (b1, d1, u1) ay.
+Proof. exact @bdeduce_tie. Qed.
+Print Assumptions deduce_ties_take_no_quotient.
+
 Theorem discounts_never_fail : forall eps, 0 <= eps <= 1/8 -> forall b d u a t s,
   wf_bop b d u a -> 0 <= t -> 0 <= s -> t + s <= 1 ->
   btrans_unc (B:=FldR) eps (bopR b d u a) (Some t) <> None /\
@@ -85,21 +95,22 @@ Theorem product3_never_fails : forall eps, 0 <= eps <= 1/8 -> forall b0 u0 a0 b1
 Proof. exact SelfCheck.product3_never_fails. Qed.
 Print Assumptions product3_never_fails.
 
-(* The hypothesis "exactly well-formed" cannot be weakened to "accepted by the checked constructors": operands
-   whose masses sum to 1 + 4 eps are accepted, and for dogmatic factors the exact product then has the uncertainty
-   -(b/a)(delta_0 + delta_1) < -eps, which the product's own validation rejects.  Witness on the executable
-   rational instance with eps = 2^-52: both factors pass check_simplex / check_base_rate, their product is None.
-   (Such a failure is legitimate in the sense of the property: the mathematically exact result is ill-formed.) *)
-Theorem product2_of_tolerated_operands_refuted :
+(* Operands accepted by the checked constructors need not be exactly well-formed: masses summing to 1 + 4 eps are
+   accepted, and for dogmatic factors the smallest quotient (P - b0 b1)/a is then -(b/a)(delta_0 + delta_1) < -eps.
+   Before repair 9f.. ("products clamp a negative rounding residue of the uncertainty") the product's own validation
+   rejected such a result; the clamped operator accepts it.  Witness on the executable rational instance with
+   eps = 2^-52: both factors pass check_simplex / check_base_rate, and their product is defined, dogmatic and
+   passes the validation. *)
+Theorem product2_of_tolerated_operands :
   let eps : Q := (1 # 4503599627370496)%Q in
   let d : Q := Qred (2 * eps)%Q in
   let b0 := [Some (Qred ((1 # 2) + d)%Q); Some (Qred ((1 # 2) + d)%Q)] in
   let a0 := [Some (1 # 8)%Q; Some (7 # 8)%Q] in
   (check_simplex (B:=FldQ) eps b0 (Some 0%Q) = true) /\
   (check_base_rate (B:=FldQ) eps a0 = true) /\
-  (product2 (B:=FldQ) eps (b0, Some 0%Q, a0) (b0, Some 0%Q, a0) = None).
-Proof. vm_compute. repeat split; reflexivity. Qed.
-Print Assumptions product2_of_tolerated_operands_refuted.
+  (exists b a, product2 (B:=FldQ) eps (b0, Some 0%Q, a0) (b0, Some 0%Q, a0) = Some (b, Some 0%Q, a)).
+Proof. vm_compute. split; [reflexivity|]. split; [reflexivity|]. eexists _, _. reflexivity. Qed.
+Print Assumptions product2_of_tolerated_operands.
 
 Example c19_nonvacuous :
   wf_bop (1/1000) (2/1000) (997/1000) (1/4) /\ wf_bop (3/1000) (1/1000) (996/1000) (5/8) /\
